@@ -5,6 +5,10 @@ the real network vs Gnpy.Chain.designLine (ampStep, targetPower, round2float, la
 Monitor: budget identity, slope rule, saturation, user values on the designed objects (own arithmetic) + propagation
 of the design comb through every OMS (element calls) compared with p_ref + delta_p - out_voa.
 """
+import os
+for _v in ('OMP_NUM_THREADS', 'OPENBLAS_NUM_THREADS', 'MKL_NUM_THREADS'):
+    os.environ.setdefault(_v, '1')     # one BLAS thread per worker process: the checks run in a process pool
+
 import copy
 import math
 
